@@ -194,9 +194,9 @@ def check(chk):
 
     # Date
     ds = m.func('Date.__str__')
-    fmts = [n.left.value for n in body_walk(ds) if isinstance(n, ast.BinOp) and isinstance(n.op, ast.Mod) and isinstance(n.left, ast.Constant)]
-    chk.judge(fmts == ['%04d-%02d-%02d'] and 'dt.year, dt.month, dt.day' in src(ds) and 'strftime' not in src(ds), 'C34.datefmt', ds, "Date.__str__: '%04d-%02d-%02d' % (year, month, day)",
-              'Date is printed with %s: years below 1000 lose their zero padding and no longer parse back' % (fmts or 'strftime'))
+    okd, whyd = _date_text(m, ds)
+    chk.judge(okd, 'C34.datefmt', ds, "Date.__str__: zero-padded year(4)-month(2)-day(2) of datetime_from_timestamp(self.seconds)",
+              'Date is printed with %s: years below 1000 lose their zero padding and no longer parse back' % whyd)
     fds = m.func('Date._from_datestring')
     sp = [c for c in body_walk(fds) if isinstance(c, ast.Call) and isinstance(c.func, ast.Attribute) and c.func.attr == 'strptime']
     okp = len(sp) == 1 and len(sp[0].args) == 2 and src(sp[0].args[1]) == 'self.date_format'
@@ -208,3 +208,70 @@ def check(chk):
     ftt = m.func('Date._from_timetuple')
     chk.judge('self.days_from_epoch = calendar.timegm(t) // Date.DAY' in src(ftt), 'C34.datefmt', ftt, 'days = timegm(timetuple) // 86400 (floor, also before 1970)', 'day count computation changed')
     chk.judge('return self.days_from_epoch * Date.DAY' in src(m.func('Date.seconds')), 'C34.datefmt', m.func('Date.seconds'), 'seconds = days * 86400', 'seconds computation changed')
+
+
+def _date_text(m, ds):
+    """Date.__str__: every text returned from the try body is <year:04d>-<month:02d>-<day:02d> of datetime_from_timestamp(self.seconds), in any formatting idiom"""
+    import re
+    from ..sem import resolve
+
+    def is_midnight(fn, e, depth=2):
+        e = resolve(fn, e)
+        if src(e) == 'datetime_from_timestamp(self.seconds)':
+            return True
+        if depth and isinstance(e, ast.Call) and isinstance(e.func, ast.Attribute) and src(e.func.value) == 'self' and not e.args and m.has('Date.' + e.func.attr):
+            h = m.func('Date.' + e.func.attr)
+            rv = [r.value for r in body_walk(h) if isinstance(r, ast.Return)]
+            return bool(rv) and all(v is not None and is_midnight(h, v, depth - 1) for v in rv)
+        return False
+
+    def parts_of(e):
+        """[(attribute, width)] and the separators, or a text saying what is not understood"""
+        if isinstance(e, ast.BinOp) and isinstance(e.op, ast.Mod) and isinstance(e.left, ast.Constant) and isinstance(e.left.value, str):
+            f = e.left.value
+            specs = re.findall(r'%(0?\d*)d', f)
+            seps = re.split(r'%0?\d*d', f)
+            args = e.right.elts if isinstance(e.right, ast.Tuple) else [e.right]
+            return list(zip(args, specs)), seps
+        if isinstance(e, ast.Call) and isinstance(e.func, ast.Attribute) and e.func.attr == 'format' and isinstance(e.func.value, ast.Constant) and isinstance(e.func.value.value, str) and not e.keywords:
+            f = e.func.value.value
+            flds = re.findall(r'\{(\d*):?([^}]*)\}', f)
+            seps = re.split(r'\{[^}]*\}', f)
+            args = []
+            for k, (pos, spec) in enumerate(flds):
+                i = int(pos) if pos else k
+                if i >= len(e.args):
+                    return 'format field %d has no argument' % i, None
+                args.append((e.args[i], spec[:-1] if spec.endswith('d') else spec))
+            return args, seps
+        if isinstance(e, ast.JoinedStr):
+            args, seps, cur = [], [], ''
+            for v in e.values:
+                if isinstance(v, ast.Constant):
+                    cur += str(v.value)
+                else:
+                    spec = ''.join(str(x.value) for x in v.format_spec.values if isinstance(x, ast.Constant)) if v.format_spec is not None else ''
+                    args.append((v.value, spec[:-1] if spec.endswith('d') else spec))
+                    seps.append(cur)
+                    cur = ''
+            seps.append(cur)
+            return args, seps
+        return src(e)[:60], None
+    tries = [t for t in body_walk(ds) if isinstance(t, ast.Try)]
+    if len(tries) != 1:
+        return False, 'no try block'
+    rets = [r for st in tries[0].body for r in ast.walk(st) if isinstance(r, ast.Return) and r.value is not None]
+    if not rets:
+        return False, 'no text returned from the try body'
+    for r in rets:
+        args, seps = parts_of(resolve(ds, r.value))
+        if seps is None:
+            return False, args
+        if seps != ['', '-', '-', ''] or len(args) != 3:
+            return False, 'separators %s' % (seps,)
+        for (a, spec), (attr, width) in zip(args, (('year', '04'), ('month', '02'), ('day', '02'))):
+            if not (isinstance(a, ast.Attribute) and a.attr == attr and is_midnight(ds, a.value)):
+                return False, '%s where the %s of datetime_from_timestamp(self.seconds) is expected' % (src(a), attr)
+            if spec != width:
+                return False, 'field %s formatted with width %r' % (attr, spec)
+    return True, ''
